@@ -3,7 +3,7 @@
  * empty labels, and the trailing-dot case). */
 void harness(void) {
   HAVOC_BUFS;
-  sv_t view; view.n = nondet_size(); MAKE_SV(view);
+  ND_SV(view);
   unsigned dots = 0;
   for (size_t i = 0; i < view.n; i++) if (view.p[i] == '.') dots++;
   __CPROVER_assume(dots <= 2);
